@@ -971,7 +971,23 @@ def _same_guards(cfg, d: ast.stmt, restore: ast.stmt) -> bool:
         gr = {(unparse(t), pol) for t, pol in cfg.guards(cfg.stmt_of(restore))}
     except Exception:
         return False
-    if not gd or not gd <= gr:
+    if gd and not gd <= gr:
+        # flag correlation: `flag = False; if c: flag = True; saved = PLACE ... if flag: PLACE = saved`
+        fi_ = cfg.fi
+        blk = None
+        pd = parent(cfg.stmt_of(d))
+        for fld in ("body", "orelse"):
+            if cfg.stmt_of(d) in getattr(pd, fld, []):
+                blk = getattr(pd, fld)
+        for t, pol in cfg.guards(cfg.stmt_of(restore)):
+            if isinstance(t, ast.Name) and pol and blk is not None:
+                defs_ = _name_defs(fi_, t.id)
+                consts = [x for x in defs_ if isinstance(x, ast.Assign) and isinstance(x.value, ast.Constant)]
+                truthy = [x for x in consts if x.value.value]
+                if defs_ and len(consts) == len(defs_) and truthy and all(x in blk for x in truthy) and t.id not in fi_.params:
+                    return True
+        return False
+    if not gd:
         return False
     # the tested names must not change in between: only parameters / names assigned once
     fi = cfg.fi
